@@ -151,14 +151,19 @@ class SchedHarness:
                 env1 = self.env.dictionary
                 self.res['first'] = ([status_name(env1.get(t.name, {})) for t in self.tasks], [t.count for t in self.tasks])
                 del self.log[:]
-                self.hard, self.soft = DepGraph(), DepGraph()
-                for tsk in self.tasks:
-                    tsk.count, tsk.deps = 0, []
-                    self.hard.add_node(tsk)
-                    self.soft.add_node(tsk)
-                for i, j, kind in self.cfg['second']['edges']:
-                    (self.hard if kind == 'h' else self.soft).add_dependency(self.tasks[i], on=self.tasks[j])
-                    self.tasks[i].deps.append(self.tasks[j])
+                if self.cfg['second'].get('same_objects'):
+                    # the very same graph objects handed to a second Scheduler: building a scheduler must not have changed them
+                    for tsk in self.tasks:
+                        tsk.count = 0
+                else:
+                    self.hard, self.soft = DepGraph(), DepGraph()
+                    for tsk in self.tasks:
+                        tsk.count, tsk.deps = 0, []
+                        self.hard.add_node(tsk)
+                        self.soft.add_node(tsk)
+                    for i, j, kind in self.cfg['second']['edges']:
+                        (self.hard if kind == 'h' else self.soft).add_dependency(self.tasks[i], on=self.tasks[j])
+                        self.tasks[i].deps.append(self.tasks[j])
                 self.env = mod['valjean.cosette.env'].Env()
                 sched = mod['valjean.cosette.scheduler'].Scheduler(hard_graph=self.hard, soft_graph=self.soft,
                                                                     backend=self.backend)
@@ -302,7 +307,7 @@ def oracle(exe, cfg):
                                 f'reference says {final[i]} / {count[i]}'))
     if ('init' not in cfg or not cfg['init']) and cfg.get('calls', 1) == 1:
         refcfg = dict(cfg, edges=cfg['second']['edges']) if 'second' in cfg else cfg
-        rtag = '|second-graph-same-backend' if 'second' in cfg else ''
+        rtag = ('|same-graph-objects-second-scheduler' if cfg['second'].get('same_objects') else '|second-graph-same-backend') if 'second' in cfg else ''
         final, count = reference(refcfg)
         if final is not None and kind == 'quiescent' and 'env' in har.res:
             env = har.env.dictionary
